@@ -15,6 +15,9 @@ use crate::stmt::{Family, ALL_FAMILIES};
 pub struct Workload {
     pub next_handle: HandleId,
     pub tag: i32,
+    /// steps already decided (bursts, chains)
+    pub queue: std::collections::VecDeque<Step>,
+    pub amplified: u32,
 }
 
 pub fn draw_cfg(r: &mut Rng, prop: Prop) -> Cfg {
@@ -134,6 +137,8 @@ impl Workload {
         Workload {
             next_handle: 0,
             tag: 100_000,
+            queue: Default::default(),
+            amplified: 0,
         }
     }
 
@@ -237,7 +242,9 @@ impl Workload {
                 Op::Ins(InsOp::ValuesPanic(self.row(r, sim, w), b))
             }
             10..=12 => {
-                let n = r.range(0, 4);
+                // mostly small batches; sometimes one past the sizes at which "bulk" fast paths
+                // typically switch on
+                let n = if r.pct(8) { r.range(8, 40) } else { r.range(0, 4) };
                 let mut rows = Vec::new();
                 for _ in 0..n {
                     let w = if r.pct(sim.cfg.mismatch_pct / 2) {
@@ -397,8 +404,106 @@ impl Workload {
         }
     }
 
+    /// burst: the same kind of builder call 8-40 times in a row on one handle (sizes at which
+    /// fast paths, small-vector spills and "bulk" code typically switch on)
+    fn plan_burst(&mut self, r: &mut Rng, sim: &Sim, h: HandleId) {
+        let mut first = self.gen_builder_op(r, sim, h);
+        for _ in 0..20 {
+            if matches!(&first, Step::Op { refs, .. } if refs.is_empty()) {
+                break;
+            }
+            first = self.gen_builder_op(r, sim, h);
+        }
+        if !matches!(&first, Step::Op { refs, .. } if refs.is_empty()) {
+            return;
+        }
+        let kind = first.kind();
+        let k = r.range(8, 40);
+        self.queue.push_back(first);
+        let mut tries = 0;
+        while self.queue.len() < k && tries < k * 30 {
+            tries += 1;
+            let st = self.gen_builder_op(r, sim, h);
+            // bursts never compose live handles (40 self-compositions would be 2^40 nodes)
+            let plain = matches!(&st, Step::Op { refs, .. } if refs.is_empty());
+            if st.kind() == kind && plain {
+                self.queue.push_back(st);
+            }
+        }
+        self.amplified += 1;
+    }
+
+    /// chain: a statement nested 8-40 levels deep, built by composing a fresh SELECT around the
+    /// previous one again and again (union / from_subquery / join_subquery), sometimes with a
+    /// second arm per level; then value operations and observations on the outermost
+    fn plan_chain(&mut self, r: &mut Rng, sim: &Sim) {
+        let k = r.range(8, 40);
+        let mut prev = self.fresh_handle();
+        self.queue.push_back(Step::New { h: prev, fam: Family::Select, ctor: Ctor::Default });
+        self.queue.push_back(Step::Op {
+            h: prev,
+            op: Op::Sel(SelOp::Column(gen_colref(r))),
+            refs: vec![],
+        });
+        let how = r.below(4);
+        for _ in 0..k {
+            let x = self.fresh_handle();
+            self.queue.push_back(Step::New { h: x, fam: Family::Select, ctor: Ctor::Default });
+            let mode = if r.pct(70) { SubMode::Move } else { SubMode::Take };
+            let sub = Sub::Handle { h: prev, mode };
+            let op = match if how == 3 { r.below(3) } else { how } {
+                0 => Op::Sel(SelOp::Union(r.below(4) as u8, sub)),
+                1 => Op::Sel(SelOp::FromSubquery(sub, gen_iden(r))),
+                _ => Op::Sel(SelOp::JoinSubquery {
+                    jt: r.below(6) as u8,
+                    sub,
+                    alias: gen_iden(r),
+                    cond: CondSpec { any: false, negate: false, items: vec![] },
+                }),
+            };
+            self.queue.push_back(Step::Op { h: x, op, refs: vec![(prev, mode)] });
+            if r.pct(35) {
+                // a sibling arm at this level
+                let arm = gen_inline_log(r, Family::Select, 0, false);
+                self.queue.push_back(Step::Op {
+                    h: x,
+                    op: Op::Sel(SelOp::Union(r.below(4) as u8, Sub::Inline(Box::new(arm)))),
+                    refs: vec![],
+                });
+            }
+            if mode == SubMode::Take {
+                self.queue.push_back(Step::Drop { h: prev });
+            }
+            prev = x;
+        }
+        let c = self.fresh_handle();
+        self.queue.push_back(Step::Clone { src: prev, new: c });
+        let c2 = self.fresh_handle();
+        self.queue.push_back(Step::Clone { src: c, new: c2 });
+        let t = self.fresh_handle();
+        self.queue.push_back(Step::Take { src: prev, new: t });
+        self.queue.push_back(Step::CloneFrom { src: t, dst: c });
+        self.queue.push_back(Step::Check);
+        self.amplified += 1;
+        let _ = sim;
+    }
+
     pub fn next_step(&mut self, r: &mut Rng, sim: &Sim) -> Step {
+        if let Some(st) = self.queue.pop_front() {
+            return st;
+        }
         let live: Vec<HandleId> = sim.model.keys().copied().collect();
+        if self.amplified < 2 && !live.is_empty() && r.pct(2) {
+            if sim.cfg.prop == Prop::C15 && sim.cfg.families.contains(&Family::Select) && r.coin() {
+                self.plan_chain(r, sim);
+            } else {
+                let h = *r.pick(&live);
+                self.plan_burst(r, sim, h);
+            }
+            if let Some(st) = self.queue.pop_front() {
+                return st;
+            }
+        }
         if live.is_empty() || (live.len() < sim.cfg.max_handles && r.pct(18)) {
             let fam = *r.pick(&sim.cfg.families);
             let h = self.fresh_handle();
